@@ -396,6 +396,10 @@ func (e *c43Env) RoundTrip(req *http.Request) (*http.Response, error) {
 	sreq.RemoteAddr = "192.0.2.9:999"
 	if x.tp != "" {
 		sreq.Header.Set("traceparent", x.tp)
+		// about half of the traced HTTP calls also carry a tracestate header: it never changes the parent
+		if len(x.tp) > 10 && x.tp[10]%2 == 0 {
+			sreq.Header.Set("tracestate", "vendor=c43,other=1")
+		}
 	}
 	before, sb, eb := len(e.spans), x.tee.starts, x.tee.ends
 	rec := httptest.NewRecorder()
